@@ -133,6 +133,15 @@ func namedSpecs() []spec.Spec {
 		}},
 		{Name: "ugc-spaces-comments", Base: "ugc", Calls: []C{opt("AddSpaceWhenStrippingTag", true), {Op: "AllowComments"}}},
 		{Name: "literal-bp", Base: "literal", Calls: []C{els("b", "p"), attrsGlob([]string{"id"}, "")}},
+		// rarely used forms of the attribute builder: AllowNoAttrs() finished with Globally() (a no-op: there is
+		// no attribute name), AllowAttrs(..).AllowNoAttrs() in every scope, with and without a value pattern
+		{Name: "rare-builder-forms", Base: "new", Calls: []C{
+			els("b", "p"),
+			{Op: "AllowNoAttrs", Scope: "global"},
+			{Op: "AllowAttrs", Names: []string{"lang"}, NoAttrs: true, Scope: "global"},
+			{Op: "AllowAttrs", Names: []string{"id"}, Re: `^[a-z]+$`, NoAttrs: true, Scope: "on", On: []string{"span", "a"}},
+			{Op: "AllowAttrs", Names: []string{"name"}, NoAttrs: true, Scope: "matching", OnRe: reMyX},
+		}},
 		{Name: "everything-named", Base: "new", Calls: []C{
 			{Op: "AllowElementsMatching", Re: `^[a-z0-9-]+$`},
 			attrsGlob([]string{"id", "class", "title", "href", "src", "name"}, ""),
